@@ -547,9 +547,17 @@ func (e *Engine) disableSnapshotCompactions() {
 	// snapDone to nil.
 	e.mu.Lock()
 	e.snapDone = nil
-	e.mu.Unlock()
-
 	// If the cache is empty, free up its resources as well.
+	e.freeCacheIfEmptyLocked()
+	e.mu.Unlock()
+}
+
+// freeCacheIfEmptyLocked releases the cache's store if the cache holds nothing. The
+// caller holds e.mu.Lock: a write holds e.mu.RLock from its cache write to its return,
+// so none is in flight, and one that completed since the shard was found idle shows
+// in the size. Freeing the store regardless dropped such a write from the cache
+// although it had been acknowledged.
+func (e *Engine) freeCacheIfEmptyLocked() {
 	if e.Cache.Size() == 0 {
 		e.Cache.Free()
 	}
@@ -930,7 +938,9 @@ func (e *Engine) IsIdle() (state bool, reason string) {
 
 // Free releases any resources held by the engine to free up memory or CPU.
 func (e *Engine) Free() error {
-	e.Cache.Free()
+	e.mu.Lock()
+	e.freeCacheIfEmptyLocked()
+	e.mu.Unlock()
 	return e.FileStore.Free()
 }
 
